@@ -114,6 +114,48 @@ def c04(ctx):
     # 6. verification requested (explicitly or by default) but no OpenPGP environment given: a text with a complete signature
     #    framework is never loaded successfully - nobody authenticated it
     no_environment(ctx, r, quick)
+    # 7. ... nor is a malformed signed top-level Manifest passed over by the discovery
+    broken_top_level(ctx, r, quick)
+
+
+def broken_top_level(ctx, r, quick):
+    """a signed top-level Manifest whose armor is truncated or misplaced is a syntax error for every front end - also for the discovery
+    that starts in a sub-directory: `gemato verify tree/sub` never falls back to the (unsigned) sub-Manifest below it"""
+    import tempfile
+    import hashlib
+    import p_tree as PT
+    n = refused = 0
+    with tempfile.TemporaryDirectory(prefix='gv-c04-', dir=os.environ.get('GV_SCRATCH')) as d:
+        for i in range(40 if quick else 400):
+            tree = os.path.join(d, 't%d' % i)
+            os.makedirs(os.path.join(tree, 'sub'))
+            with open(os.path.join(tree, 'sub', 'file'), 'wb') as f:
+                f.write(b'payload\n')
+            subm = 'DATA file 8 SHA1 %s\n' % hashlib.sha1(b'payload\n').hexdigest()
+            with open(os.path.join(tree, 'sub', 'Manifest'), 'w') as f:
+                f.write(subm)
+            body = ['MANIFEST sub/Manifest %d SHA1 %s' % (len(subm), hashlib.sha1(subm.encode()).hexdigest())]
+            sig = [SIGBEGIN, '', 'iQEzBAEBCgAdFiEE', '=BR6/', END]
+            kind = r.choice(['eof-in-headers', 'eof-in-cleartext', 'eof-in-signature', 'stray-end', 'stray-begin-signature', 'second-begin', 'armor-in-body'])
+            seq = {'eof-in-headers': [BEGIN, 'Hash: SHA256'],
+                   'eof-in-cleartext': [BEGIN, 'Hash: SHA256', ''] + body,
+                   'eof-in-signature': [BEGIN, 'Hash: SHA256', ''] + body + sig[:-1],
+                   'stray-end': body + [END],
+                   'stray-begin-signature': body + [SIGBEGIN],
+                   'second-begin': [BEGIN, 'Hash: SHA256', ''] + body + [BEGIN] + sig,
+                   'armor-in-body': [BEGIN, 'Hash: SHA256', ''] + body + ['-----FOO-----'] + sig}[kind]
+            with open(os.path.join(tree, 'Manifest'), 'w', newline='') as f:
+                f.write(seq_text(seq, True))
+            flags = r.choice([[], ['--no-openpgp-verify'], ['-k'], ['-k', '--no-openpgp-verify']])
+            target = r.choice(['sub', 'sub', ''])
+            rc, items = PT.run_cli_collect(['gemato', 'verify'] + flags + [os.path.join(tree, target) if target else tree])
+            n += 1
+            if rc == 0:
+                ctx.violation('spec', f'gemato verify {" ".join(flags)} {target or "<top>"} exits 0 although the top-level Manifest is malformed ({kind}): '
+                              'the broken signed Manifest was not rejected', {'kind': kind, 'flags': flags, 'start': target, 'top_level_text': seq_text(seq, True), 'log': items})
+            else:
+                refused += 1
+    ctx.count('cli:broken-top-level', n, n, dist={'runs_refused': refused})
 
 
 def no_environment(ctx, r, quick):
